@@ -632,6 +632,36 @@ def fixed_programs():
     for order in ((0, 1, 2, 3, 4), (4, 3, 2, 1, 0), (2, 0, 4, 1, 3)):
         cl = [src, relay, sink, direct, plain]
         out.append(Program([Func("main", [], VOID, body)], [cl[i] for i in order]))
+    # (8) an inherited static method runs in the class that declares it: bare static names and unqualified static calls inside it
+    #     mean that class's members, also when the call is made through a subclass that redeclares members of the same names
+    counter = Class("Counter", "", [Field(INT, "count", I(10), static=True)],
+                    [Method("tag", [], STR, [Ret(S("Counter"))], static=True),
+                     Method("bump", [], INT, [Expr(Asg("count", Bin("+", Var("count"), I(1)))), Ret(Var("count"))], static=True),
+                     Method("who", [], STR, [Ret(Bin("+", MCall(This(), "tag", bare=True), Var("count")))], static=True),
+                     Method("viaInstance", [], INT, [Ret(MCall(This(), "bump", bare=True))])], [Ctor([], [], default=True)], [])
+    subc = Class("SubCounter", "Counter", [Field(INT, "count", I(100), static=True)],
+                 [Method("tag", [], STR, [Ret(S("SubCounter"))], static=True), Method("mine", [], STR, [Ret(Bin("+", MCall(This(), "tag", bare=True), Var("count")))], static=True),
+                  Method("viaSub", [], INT, [Ret(MCall(This(), "bump", bare=True))])], [Ctor([], [Super()])], [])
+    body = [Echo(SCall("Counter", "bump")), Echo(SCall("SubCounter", "bump")), Echo(SCall("SubCounter", "who")), Echo(SCall("Counter", "who")), Echo(SCall("SubCounter", "mine")),
+            Decl(C("SubCounter"), "sc", New("SubCounter")), Echo(MCall(Var("sc"), "viaInstance")), Echo(MCall(Var("sc"), "viaSub")),
+            Echo(SFld("Counter", "count")), Echo(SFld("SubCounter", "count"))]
+    for cl in ([counter, subc], [subc, counter]):
+        out.append(Program([Func("main", [], VOID, body)], cl))
+    # (9) super(...) picks the base constructor the way 'new' does: the most specific applicable one, whatever the declaration order
+    animal = Class("Animal", "", [], [], [Ctor([], [], default=True)], [])
+    dog = Class("Dog", "Animal", [], [], [Ctor([], [Super()])], [])
+    for first_wide in (True, False):
+        cts = [Ctor([Param(P("long"), "w")], [Echo(S("Pen(long)"))]), Ctor([Param(INT, "n")], [Echo(S("Pen(int)"))]),
+               Ctor([Param(C("Animal"), "a")], [Echo(S("Pen(Animal)"))]), Ctor([Param(C("Dog"), "d")], [Echo(S("Pen(Dog)"))])]
+        if not first_wide:
+            cts = [cts[1], cts[0], cts[3], cts[2]]
+        pen = Class("Pen", "", [], [], cts, [])
+        cpen = Class("CountedPen", "Pen", [], [], [Ctor([Param(INT, "n")], [Super(Var("n")), Echo(S("CountedPen"))]), Ctor([Param(P("long"), "w")], [Super(Var("w")), Echo(S("CountedPen long"))])], [])
+        dpen = Class("DogPen", "Pen", [], [], [Ctor([Param(C("Dog"), "d")], [Super(Var("d")), Echo(S("DogPen"))]), Ctor([Param(C("Animal"), "a")], [Super(Var("a")), Echo(S("DogPen animal"))])], [])
+        body = [Decl(C("Pen"), "p1", New("Pen", I(1))), Decl(C("Pen"), "p2", New("Pen", L(2))), Decl(C("Pen"), "p3", New("Pen", New("Dog"))), Decl(C("Pen"), "p4", New("Pen", New("Animal"))),
+                Decl(C("Pen"), "c1", New("CountedPen", I(3))), Decl(C("Pen"), "c2", New("CountedPen", L(4))), Decl(C("Pen"), "d1", New("DogPen", New("Dog"))),
+                Decl(C("Animal"), "an", New("Dog")), Decl(C("Pen"), "d2", New("DogPen", Var("an")))]
+        out.append(Program([Func("main", [], VOID, body)], [animal, dog, pen, cpen, dpen]))
     for build in (("Shape", "Circle", "Dot"), ("Dot", "Shape", "Circle"), ("Circle", "Dot", "Shape")):
         log = Class("Log", "", [], [Method("seen", [Param(C("Shape"), "s")], INT, [Echo(S("seen(Shape)")), Ret(I(1))], static=True),
                                     Method("seen", [Param(C("Circle"), "c")], INT, [Echo(S("seen(Circle)")), Ret(I(2))], static=True)], [], [], static=True)
